@@ -2221,6 +2221,9 @@ class SessStream(_session.SessionStream):
         # C06, last sentence, on the observation only: a referenced attachment exists with the written content
         # (blocks left by an exception included: they must not be referenced at all)
         out = _session.attachment_failures("C06", obs)
+        # ... "never in the result of another test": an event is fired by a thread that owns a cursor on its location (a thread
+        # without any cursor — a plain threading.Thread — must not write into the result another thread is working on)
+        out += _session.ownership_failures("C06", case["ops"], obs["fired"])
         # ... and "inside the step that was current in the emitting thread", for every step change (also one to a
         # step with the same description), on the streams of call sequences a run can issue
         if obs["error"] is None and _session.protocol_following(case["ops"]):
